@@ -32,7 +32,14 @@ def one(d):
     tmp = tempfile.mkdtemp(prefix="fqr-seedre-")
     wt = os.path.join(tmp, "repo")
     try:
-        subprocess.run(["git", "-C", "/repo", "worktree", "add", "--detach", "-q", wt, "HEAD"], check=True)
+        for attempt in range(6):
+            a_ = subprocess.run(["git", "-C", "/repo", "worktree", "add", "--detach", "-q", wt, "HEAD"], capture_output=True, text=True)
+            if a_.returncode == 0:
+                break
+            import time as _t
+            _t.sleep(1 + attempt)  # another thread holds the worktree lock (add / prune)
+        else:
+            return sid, "WORKTREE ERROR " + a_.stderr[:120]
         a = subprocess.run(["git", "-C", wt, "apply", patch], capture_output=True, text=True)
         if a.returncode:
             return sid, "PATCH DOES NOT APPLY"
